@@ -48,7 +48,7 @@ def chunks(tier, seed):
 
 
 def floors(tier):
-    return {"monitors": {"readUnixTime.wellformed": 100000, "readUnixTime.other_numeric_types": 100000, "inplace_fields.then_convert": 3000,
+    return {"monitors": {"readUnixTime.wellformed": 100000, "readUnixTime.other_numeric_types": 100000, "add.result_is_the_callers_own_object": 10000, "inplace_fields.then_convert": 3000,
                          "fractional.wellformed_same_instant": 3000},
             "classes": {"jan1_after_common_year": 90, "dec31_leap_year": 30, "leap_day": 30,
                         "cmp_pair": 1000, "add_cross_year": 50, "add_cross_leapday": 20},
@@ -105,7 +105,10 @@ def cases(chunk):
         for i in range(chunk["shard"], NDAYS, NSH):
             d = FIRST + datetime.timedelta(days=i)
             yield {"kind": "day", "ymd": [d.year, d.month, d.day],
-                   "ms": [0, 12 * 3600 * 1000, 86400 * 1000 - 1, rng.randrange(86400 * 1000)]}
+                   # ... and, converted right after an instant of this day, the midnight that ends it (ordering:
+                   # a conversion may remember the day of the previous one)
+                   "ms": [0, 12 * 3600 * 1000, 86400 * 1000 - 1, rng.randrange(86400 * 1000)] +
+                         ([86400 * 1000] if i < NDAYS - 1 else [])}
     elif kind == "special":
         sd = special_days()
         stride = chunk["stride"]
@@ -387,6 +390,23 @@ def run_case(case, ctx):
                 return violated({"what": "comparison %s after the calendar fields were set in place disagrees with "
                                          "epoch order" % name, "a_fields_now": tf, "a_fields_before": bf, "b": bf,
                                  "got": got, "expected": op(tgt, base)}, sig, True, cls)
+        # aliasing: what add*() RETURNS belongs to the caller -- also for an offset of zero (the k = 0 element of a
+        # series t.addSec(k * dt)).  The caller edits the returned timestamp in place; the timestamp it was computed
+        # from must go on denoting its own instant.
+        v = gen.obstime_from_ms(base)
+        z = M.call(getattr(v, "add" + unit), 0 if n % 2 else 0.0)
+        ctx.monitor("add.result_is_the_callers_own_object")
+        if M.is_raised(z) or abs(gen.ms_from_fields(*[int(x) for x in gen.obstime_fields(z)]) - base) > 1:
+            return violated({"what": "add%s(0) does not denote the same instant" % unit, "base": bf, "got": z if M.is_raised(z)
+                             else gen.obstime_fields(z)}, sig, True, cls)
+        M.scribble(z)
+        M.scribble(r)
+        after = M.call(v.toAbsTime)
+        if tuple(int(x) for x in gen.obstime_fields(v)) != tuple(int(x) for x in bf) or M.is_raised(after) \
+                or abs(after * 1000.0 - base) > 1e-3:
+            return violated({"what": "a timestamp changed when the caller edited, in place, the timestamp returned by "
+                                     "add%s(0) on it" % unit, "fields_before": bf, "fields_now": gen.obstime_fields(v),
+                             "toAbsTime_now": after}, sig, True, cls)
         return held(sig, len(cls) > 1, cls)
     raise M.HarnessError("unknown case kind %r" % kind)
 
